@@ -38,5 +38,5 @@ class IPv4SRTE(NLRI):
         """ Construct NLRI """
         nlri_tmp = b'' + struct.pack('!I', data['distinguisher']) + \
             struct.pack('!I', data['color']) + \
-            netaddr.IPAddress(data['endpoint']).packed
+            netaddr.IPAddress(data['endpoint'], 4).packed
         return struct.pack('!B', len(nlri_tmp) * 8) + nlri_tmp
